@@ -20,6 +20,7 @@ type vmCtx struct {
 	key, val    any
 	children    []*vmCtx
 	cancelable  bool
+	noCancel    bool // context.WithoutCancel: values are kept, cancellation is not
 	mayExpire   bool
 	deadline    time.Time
 	hasDeadline bool
@@ -29,6 +30,9 @@ var vmBackground = &vmCtx{}
 
 func (c *vmCtx) Deadline() (time.Time, bool) {
 	for n := c; n != nil; n = n.parent {
+		if n.noCancel {
+			break
+		}
 		if n.hasDeadline {
 			return n.deadline, true
 		}
@@ -39,6 +43,9 @@ func (c *vmCtx) Deadline() (time.Time, bool) {
 // owner returns the nearest node that owns a done channel.
 func (c *vmCtx) owner() *vmCtx {
 	for n := c; n != nil; n = n.parent {
+		if n.noCancel {
+			return nil
+		}
 		if n.cancelable {
 			return n
 		}
@@ -148,6 +155,11 @@ func vmCtxWithDeadline(parent context.Context, t time.Time) (context.Context, co
 	c.hasDeadline = true
 	c.deadline = t
 	return c, func() { c.cancel(context.Canceled) }
+}
+
+//verif:redirect context.WithoutCancel
+func vmCtxWithoutCancel(parent context.Context) context.Context {
+	return &vmCtx{parent: vmAsCtx(parent), noCancel: true}
 }
 
 //verif:redirect context.WithValue
